@@ -216,34 +216,56 @@ def render_project(spec, tools, srcdir):
 
 
 # ------------------------------------------------------------------ build.ninja statement splitter
-def ninja_unescape_path(p):
-    return p.replace('$ ', ' ').replace('$:', ':').replace('$$', '$')
+def decode_build_lines(ctx, lines):
+    """Read `build ...` lines with the extracted reference decoder (ninja's path mode,
+    coq/Quote/Ninja.v npaths).  -> per line a dict(outs, implicit, rule, ins, deps, orderdeps)
+    or None when ninja could not read the line."""
+    def rounds(texts):
+        res = ctx.run_model([('npaths', [t]) for t in texts]) if texts else []
+        out = []
+        for r in res:
+            if not r.startswith('O'):
+                out.append(None)
+            else:
+                lst, _, rest = r[1:].partition('\x01')
+                out.append((lst.split('\x02')[:-1] if lst else [], rest))
+        return out
+    st = [{'rest': (l[6:] if l.startswith('build ') else None), 'ok': l.startswith('build ')} for l in lines]
 
-
-def split_paths(s):
-    """split a build-line path list at unescaped blanks"""
-    out, cur, i = [], '', 0
-    while i < len(s):
-        c = s[i]
-        if c == '$' and i + 1 < len(s):
-            cur += s[i:i + 2]
-            i += 2
-        elif c == ' ':
-            if cur:
-                out.append(cur)
-            cur = ''
-            i += 1
+    def step(key, pred, strip):
+        idx = [i for i, x in enumerate(st) if x['ok'] and pred(x['rest'])]
+        for i, r in zip(idx, rounds([strip(st[i]['rest']) for i in idx])):
+            if r is None:
+                st[i]['ok'] = False
+            else:
+                st[i][key], st[i]['rest'] = r
+    step('outs', lambda r: True, lambda r: r)
+    step('implicit', lambda r: r.startswith('| '), lambda r: r[1:])
+    for x in st:
+        if x['ok']:
+            if not x['rest'].startswith(':'):
+                x['ok'] = False
+                continue
+            body = x['rest'][1:].lstrip(' ')
+            x['rule'], _, x['rest'] = body.partition(' ')
+            if x['rule'].endswith('\n'):
+                x['rule'], x['rest'] = x['rule'][:-1], '\n'
+    step('ins', lambda r: True, lambda r: r)
+    step('deps', lambda r: r.startswith('| '), lambda r: r[1:])
+    step('orderdeps', lambda r: r.startswith('|| '), lambda r: r[2:])
+    out = []
+    for x in st:
+        if not x['ok'] or x['rest'] not in ('', '\n'):
+            out.append(None)
         else:
-            cur += c
-            i += 1
-    if cur:
-        out.append(cur)
-    return [ninja_unescape_path(x) for x in out]
+            out.append({k: x.get(k, [] if k != 'rule' else '') for k in ('outs', 'implicit', 'rule', 'ins', 'deps', 'orderdeps')})
+    return out
 
 
-def parse_ninja(text):
+def parse_ninja(ctx, text):
     rules, builds, bad = {}, [], []
     cur = None
+    blines = []
     for line in text.split('\n'):
         if line.startswith('#') or line.strip(' ') == '':
             if line.strip(' ') == '':
@@ -252,21 +274,8 @@ def parse_ninja(text):
         if line.startswith('rule '):
             cur = rules.setdefault(line[5:].strip(), {})
         elif line.startswith('build '):
-            body = line[6:]
-            # first unescaped ':'
-            i = 0
-            while i < len(body):
-                if body[i] == '$':
-                    i += 2
-                    continue
-                if body[i] == ':':
-                    break
-                i += 1
-            outs = split_paths(body[:i].split(' | ')[0])
-            rest = body[i + 1:].lstrip(' ')
-            rule, _, ins = rest.partition(' ')
-            explicit = re.split(r' \|\|? ', ' ' + ins + ' ')[0]
-            b = {'outs': outs, 'rule': rule, 'ins': split_paths(explicit), 'vars': {}}
+            b = {'outs': [], 'rule': '', 'ins': [], 'vars': {}}
+            blines.append((line, b))
             builds.append(b)
             cur = b['vars']
         elif line.startswith(' ') and cur is not None and ' = ' in line + ' ':
@@ -276,6 +285,11 @@ def parse_ninja(text):
             cur = None if not line.startswith('pool ') else {}
         else:
             bad.append(line)
+    for (line, b), d in zip(blines, decode_build_lines(ctx, [l for l, _ in blines])):
+        if d is None:
+            bad.append(line)
+        else:
+            b.update(outs=d['outs'], rule=d['rule'], ins=d['ins'])
     return rules, builds, bad
 
 
@@ -364,7 +378,7 @@ def check_project(ctx, tools, spec, root):
         stats['setup_failed'] = 1
         return [{'kind': 'setup_failed', 'item': None, 'stdout': (r.stdout + r.stderr)[-1500:]}], stats
     text = open(os.path.join(bdir, 'build.ninja'), encoding='utf-8', errors='surrogateescape', newline='\n').read()
-    rules, builds, bad = parse_ninja(text)
+    rules, builds, bad = parse_ninja(ctx, text)
     if bad:
         fails.append({'kind': 'build_ninja_malformed', 'item': None, 'lines': bad[:5]})
     by_out = {}
@@ -746,6 +760,8 @@ def stream(ctx, tools, thorough, found):
         {'kind': 'generator', 'id': 9011, 'args': ['a b', '\\'], 'env': {'MV_A': '$v'}, 'capture': True},
         {'kind': 'test', 'id': 9012, 'args': hostile + ['a\nb', 'c\rd', '&&'], 'env': {'MV_A': 'l1\nl2', 'MV_B': "q'"}, 'workdir': False},
         {'kind': 'test', 'id': 9013, 'args': ['x y'], 'env': None, 'workdir': True},
+        {'kind': 'test', 'id': 9014, 'args': ['dup', 'dup', 'x', '', 'dup', ''], 'env': None, 'workdir': False},
+        {'kind': 'custom_target', 'id': 9015, 'args': ['dup', 'dup', 'x', '', 'dup', ''], 'env': None},
     ]
     specs.append({'lang_c': False, 'items': corpus_items, 'label': 'corpus'})
     cargs = ['-DA="a b\\n"', '-DB=$y', '-DC=#', "-DD='q'", '/DE=a\\b', '-mf=a\\b', 'plain\\x', '-DF=a  b', '-DG=;&|<>()', '-DH=é€', '-DI=`id`', '-DJ=*?', '-DK=a:b']
@@ -763,7 +779,13 @@ def stream(ctx, tools, thorough, found):
         long_ = {'kind': 'exe', 'id': 9120 + order, 'c_args': ['-DS=s\\t'] + pad_c, 'link_args': ['-Wxs,s\\t'] + pad_l}
         specs.append({'lang_c': True, 'rsp': 'mixed', 'label': 'corpus-c-mixed',
                       'global_args': ['-DGL=g l\\o'], 'project_args': ['-DPR=p\\r', '-mpr=x\\y'], 'project_link_args': ['-Wxpl,a\\b'],
-                      'items': [short, long_] if order == 0 else [long_, short]})
+                      'items': ([short, long_] if order == 0 else [long_, short]) + [
+                          # the other command positions next to response-file statements (same rules, same file)
+                          {'kind': 'generator', 'id': 9130 + order, 'args': ['a b', "it's", '$x', 'b\\s'], 'env': {'MV_A': "g e'n$"}, 'capture': bool(order)},
+                          {'kind': 'run_target', 'id': 9132 + order, 'args': ['r s', '*', '#'], 'env': {'MV_A': 'x y', 'MV_B': '$h'}},
+                          {'kind': 'custom_target', 'id': 9134 + order, 'args': ['c t', ';', 'x@BUILD_ROOT@'], 'env': {'MV_A': 'l1\nl2'}, 'capture': not order},
+                          {'kind': 'test', 'id': 9136 + order, 'args': ['t a', '', "q'", 'n\nl'], 'env': {'MV_A': 'e v', 'MV_B': 'l1\nl2'}, 'workdir': True},
+                          {'kind': 'test', 'id': 9138 + order, 'args': ['&&', '$'], 'env': None, 'workdir': False}]})
     # the defect classes, one item per project so that each is attributed exactly
     probes = [
         {'kind': 'custom_target', 'id': 9201, 'args': ['x'], 'env': {'MV_A': 'l1\nl2'}},
@@ -795,6 +817,8 @@ def stream(ctx, tools, thorough, found):
             for it in items[1::2]:
                 it['c_args'] = it['c_args'] + pad_c
                 it['link_args'] = it['link_args'] + pad_l
+            # generator / run_target / custom_target / test (env, workdir, capture, feed) in the same project
+            items += gen_items(rng, CK.gen_arg, 5, nextid, False)
         specs.append({'lang_c': True, 'rsp': mode, 'label': 'random-c', 'items': items,
                       'global_args': [('-DGL%d=' % k) + a for k, a in enumerate(pa(''))],
                       'project_args': [('-mpr%d=' % k) + a for k, a in enumerate(pa(''))],
